@@ -761,10 +761,15 @@ func c07r7(c *Ctx) {
 	c.MinCount(rule, "address parameters followed", n, 2)
 }
 
-// C08-R6: after a secret marker nothing is read from the stream before the crypto bracket opens.
+// C08-R6: after a SecretMarker nothing is pulled from the stream outside the crypto-for-secret bracket.
+//
+// The rule is not tied to particular receivers: every branch of package message whose outcome means "the
+// expression just read is the SecretMarker" is a starting point, and the search runs over the control flow
+// with same-module helpers spliced in (cxSearch), so the marker test, the bracket and the read may each live
+// in a helper of their own.
 func c08r6(c *Ctx) {
 	const rule = "C08-R6"
-	c.Doc(rule, "in the three ClassAd receivers every frame-consuming call (a *Message method from which ensureData is reachable) that can only be reached through the 'expression == SecretMarker' outcome is made through a function that passes PrepareCryptoForSecret (or the stream-has-no-toggle edge) before its first read: the frame that follows a marker was written under the temporary crypto state and must not be pulled in (e.g. by an extra ensureData) while that state is still off")
+	c.Doc(rule, "from every branch outcome in package message that establishes 'this expression is the SecretMarker' (a comparison with the constant, a boolean helper that makes it, or the boolean result of a call handed the constant) no path - followed through same-module helpers - reaches a pull of stream data (a call of ensureData or an invoke of ReadFrame) without first passing PrepareCryptoForSecret or the edge on which the stream has no such toggle (failed type assertion / nil toggle): the frame that follows a marker was written under the temporary crypto state and must not be pulled in (e.g. by an extra ensureData) while that state is still off")
 	marker := c.needObj(rule, "message", "SecretMarker")
 	ens := c.needFn(rule, "message", "(*Message).ensureData")
 	if marker == nil || ens == nil {
@@ -775,65 +780,46 @@ func c08r6(c *Ctx) {
 	if mk != nil {
 		mval, _ = constantToString(mk)
 	}
-	// *Message methods that can consume from the stream
-	consumes := map[*ssa.Function]bool{ens: true}
-	changed := true
-	for changed {
-		changed = false
-		for _, f := range c.FnsOfPkg("message") {
-			if consumes[f] {
-				continue
-			}
-			allInstrs(f, func(_ *ssa.BasicBlock, _ int, in ssa.Instruction) {
-				if call, ok := in.(ssa.CallInstruction); ok && !consumes[f] {
-					if g := calleeFn(call); g != nil && consumes[g] {
-						consumes[f] = true
-						changed = true
-					}
-				}
-			})
-		}
+	isMarkerConst := func(v ssa.Value) bool {
+		s, ok := constString(v)
+		return ok && s == mval
 	}
-	// bracketed(g): every path of g from entry to its first consuming call passes Prepare or the no-toggle edge
-	bracketed := func(g *ssa.Function) bool {
-		cuts := newCuts()
-		allInstrs(g, func(b *ssa.BasicBlock, _ int, in ssa.Instruction) {
-			if call, ok := in.(*ssa.Call); ok && call.Call.IsInvoke() && call.Call.Method.Name() == "PrepareCryptoForSecret" {
-				cuts.AddInstrs(in)
-			}
-			if ta, ok := in.(*ssa.TypeAssert); ok && ta.CommaOk {
-				// the !ok edge of "sc, ok := m.stream.(secretCrypto)"
-				for _, r := range *ta.Referrers() {
-					if ex, isEx := r.(*ssa.Extract); isEx && ex.Index == 1 {
-						_, fE := boolEdges(g, ex)
-						cuts.AddEdges(fE...)
-					}
-				}
-			}
-		})
-		okAll := true
-		allInstrs(g, func(_ *ssa.BasicBlock, _ int, in ssa.Instruction) {
-			if call, ok := in.(ssa.CallInstruction); ok && okAll {
-				h := calleeFn(call)
-				reads := h != nil && consumes[h]
-				if call.Common().IsInvoke() && call.Common().Method.Name() == "ReadFrame" {
-					reads = true // the primitive pull of a frame from the stream
-				}
-				if reads && findPath(entryPoint(g), Target{Instr: in}, cuts) != nil {
-					okAll = false
-				}
-			}
-		})
-		return okAll
-	}
-	n := 0
-	for _, name := range []string{"getClassAdFromMessageWithMaxSize", "(*Message).GetClassAdRawBody", "(*Message).SkipClassAdRaw"} {
-		fn := c.needFn(rule, "message", name)
-		if fn == nil {
-			continue
+	hasToggle := func(t types.Type) bool {
+		it, ok := t.Underlying().(*types.Interface)
+		if !ok {
+			return false
 		}
-		// marker outcome edges: x == SecretMarker (true edge), or the true edge of a bool call handed the marker constant
-		var mEdges []Edge
+		for i := 0; i < it.NumMethods(); i++ {
+			if it.Method(i).Name() == "PrepareCryptoForSecret" {
+				return true
+			}
+		}
+		return false
+	}
+	// predicate(g): +1 when g returns "x == SecretMarker" on every return, -1 for "!=", 0 otherwise
+	predicate := func(g *ssa.Function) int {
+		if g == nil || g.Blocks == nil || g.Signature.Results().Len() != 1 {
+			return 0
+		}
+		pol := 0
+		for _, r := range cxReturns(g) {
+			a := condAtom(r.Results[0])
+			if (a.Op != token.EQL && a.Op != token.NEQ) || !(isMarkerConst(a.X) || isMarkerConst(a.Y)) {
+				return 0
+			}
+			p := 1
+			if (a.Op == token.NEQ) != a.Neg {
+				p = -1
+			}
+			if pol != 0 && pol != p {
+				return 0
+			}
+			pol = p
+		}
+		return pol
+	}
+	markerEdges := func(fn *ssa.Function) []Edge {
+		var out []Edge
 		for _, b := range fn.Blocks {
 			ifi := blockIf(b)
 			if ifi == nil {
@@ -842,66 +828,133 @@ func c08r6(c *Ctx) {
 			a := condAtom(ifi.Cond)
 			switch a.Op {
 			case token.EQL, token.NEQ:
-				sx, okx := constString(a.X)
-				sy, oky := constString(a.Y)
-				if (okx && sx == mval) || (oky && sy == mval) {
+				if isMarkerConst(a.X) || isMarkerConst(a.Y) {
 					eq := a.Op == token.EQL
 					if a.Neg {
 						eq = !eq
 					}
 					if eq {
-						mEdges = append(mEdges, Edge{b, 0})
+						out = append(out, Edge{b, 0})
 					} else {
-						mEdges = append(mEdges, Edge{b, 1})
+						out = append(out, Edge{b, 1})
 					}
 				}
 			case token.ILLEGAL:
 				for _, o := range origins(fn, a.X) {
-					if oc, _ := originCall(o); oc != nil {
+					oc, _ := originCall(o)
+					if oc == nil {
+						continue
+					}
+					pos := false
+					neg := false
+					if p := predicate(calleeFn(oc)); p != 0 {
+						pos, neg = p > 0, p < 0
+					} else {
 						for _, arg := range oc.Common().Args {
-							if s, ok := constString(arg); ok && s == mval {
-								t := Edge{b, 0}
-								if a.Neg {
-									t = Edge{b, 1}
-								}
-								mEdges = append(mEdges, t)
+							if isMarkerConst(arg) {
+								pos = true
 							}
 						}
+					}
+					if a.Neg {
+						pos, neg = neg, pos
+					}
+					if pos {
+						out = append(out, Edge{b, 0})
+					}
+					if neg {
+						out = append(out, Edge{b, 1})
 					}
 				}
 			}
 		}
-		if len(mEdges) == 0 {
-			c.Undecided(rule, fnName(fn)+"#marker-test", "no test against SecretMarker found in this receiver", fn.Pos())
+		return out
+	}
+	cls := map[*ssa.Function][]RetPoint{}
+	search := &cxSearch{
+		errRet: func(fn *ssa.Function, ret *ssa.Return, via *ssa.BasicBlock) bool {
+			rs, ok := cls[fn]
+			if !ok {
+				rs = c.returnsOf(fn)
+				cls[fn] = rs
+			}
+			for _, r := range rs {
+				if r.Ret == ret && (r.Pred == nil || r.Pred == via) {
+					return r.Class == "error"
+				}
+			}
+			return false
+		},
+		target: func(fr *cxFrame, in ssa.Instruction, _ *ssa.BasicBlock) bool {
+			call, ok := in.(ssa.CallInstruction)
+			if !ok {
+				return false
+			}
+			if call.Common().IsInvoke() {
+				return call.Common().Method.Name() == "ReadFrame"
+			}
+			return calleeFn(call) == ens
+		},
+		cutInstr: func(fr *cxFrame, in ssa.Instruction) bool {
+			call, ok := in.(ssa.CallInstruction)
+			return ok && call.Common().IsInvoke() && call.Common().Method.Name() == "PrepareCryptoForSecret"
+		},
+		cutEdge: func(fr *cxFrame, e Edge) bool {
+			ifi := blockIf(e.From)
+			if ifi == nil {
+				return false
+			}
+			a := condAtom(ifi.Cond)
+			switch a.Op {
+			case token.EQL, token.NEQ:
+				var v ssa.Value
+				if isNilConst(a.Y) {
+					v = a.X
+				} else if isNilConst(a.X) {
+					v = a.Y
+				}
+				if v == nil || !hasToggle(v.Type()) {
+					return false
+				}
+				nilOnTrue := a.Op == token.EQL
+				if a.Neg {
+					nilOnTrue = !nilOnTrue
+				}
+				return (nilOnTrue && e.Succ == 0) || (!nilOnTrue && e.Succ == 1)
+			case token.ILLEGAL:
+				ex, ok := a.X.(*ssa.Extract)
+				if !ok || ex.Index != 1 {
+					return false
+				}
+				ta, ok := ex.Tuple.(*ssa.TypeAssert)
+				if !ok || !ta.CommaOk || !hasToggle(ta.AssertedType) {
+					return false
+				}
+				falseSucc := 1
+				if a.Neg {
+					falseSucc = 0
+				}
+				return e.Succ == falseSucc
+			}
+			return false
+		},
+	}
+	n := 0
+	for _, fn := range c.FnsOfPkg("message") {
+		edges := markerEdges(fn)
+		if len(edges) == 0 {
 			continue
 		}
 		n++
-		cuts := newCuts().AddEdges(mEdges...)
-		bad := false
-		allInstrs(fn, func(_ *ssa.BasicBlock, _ int, in ssa.Instruction) {
-			call, ok := in.(ssa.CallInstruction)
-			if !ok {
-				return
+		var wit []*ssa.BasicBlock
+		for _, e := range edges {
+			if p := search.find(cxPoint{cxTop(fn), e.To(), 0}); p != nil && wit == nil {
+				wit = p
 			}
-			g := calleeFn(call)
-			if g == nil || !consumes[g] {
-				return
-			}
-			// only calls that lie behind the marker outcome
-			if findPath(entryPoint(fn), Target{Instr: in}, cuts) != nil {
-				return
-			}
-			// a loop's next iteration is reachable without the marker edge, so what remains is the marker branch
-			if !bracketed(g) {
-				bad = true
-				c.Violate(rule, fnName(fn)+"#read-after-marker:"+g.Name(), "after a SecretMarker the receiver reads from the stream through "+g.Name()+" before the crypto-for-secret bracket is open: the encrypted secret frame is pulled in as cleartext", in.Pos())
-			}
-		})
-		if !bad {
-			c.Ok(rule, fnName(fn)+"#marker-then-bracket", "the first read after a marker happens inside the crypto bracket", fn.Pos())
 		}
+		c.Check(wit == nil, rule, fnName(fn)+"#read-after-marker", "the first pull of stream data after a marker happens inside the crypto bracket", "after a SecretMarker the receiver pulls stream data before the crypto-for-secret bracket is open: the encrypted secret frame is taken in as cleartext", fn.Pos(), c.describePath(wit)...)
 	}
-	c.MinCount(rule, "receivers with a marker test", n, 2)
+	c.MinCount(rule, "functions that test for the SecretMarker", n, 1)
 }
 
 // C10-R7: the session identifier is always part of the post-authentication ad.
